@@ -155,7 +155,15 @@ fn build_message(tx: &mut Tx, spec: &MsgSpec) -> (Vec<u8>, RefVal) {
             None => { hdr.push(HdrRef { segment: seg, index: idx, new_text: None }); table.push(ATOMS[tx[slot]].to_string()); }
         }
     }
-    let control = RefVal::Tuple(std::iter::once(RefVal::int(2)).chain(table.iter().rev().map(|s| RefVal::atom(s))).collect());
+    // every cached atom is used as a plain atom and as the node of a pid, a port and a reference
+    let mut elems: Vec<RefVal> = vec![RefVal::int(2)];
+    elems.extend(table.iter().rev().map(|s| RefVal::atom(s)));
+    for (i, s) in table.iter().enumerate() {
+        elems.push(RefVal::Pid { node: s.clone(), id: 1 + i as u32, serial: 2, creation: 3 });
+        elems.push(RefVal::Port { node: s.clone(), id: 5, creation: 1 });
+        elems.push(RefVal::Ref { node: s.clone(), creation: 7, ids: vec![1, 2, 3] });
+    }
+    let control = RefVal::Tuple(elems);
     let mut bytes = write_dist_header(&hdr);
     w_term_cached(&mut bytes, &control, &table);
     (bytes, control)
